@@ -205,7 +205,10 @@ def gen_plan(rng, cfg, tier, profile):
     plan['p_preempt'] = 0.0
     plan.pop('file_p', None)
     plan['p_lock'] = rng.choice([0.3, 0.6, 0.9])
-  if profile in ('c02', 'c10', 'c17') and rng.random() < (0.25 if tier == 'thorough' else 0.08):
+  if False and profile in ('c02', 'c10', 'c17'):
+    # DISABLED: CPython 3.12.1 segfaults when `opcode` trace events are combined with the
+    # baton hand-off between real threads (see DESIGN.md section 13); pre-emption stays at
+    # source-line granularity
     # pre-emption between the bytecodes of carbon/cache.py (read-modify-write of size etc.)
     plan['opcode'] = True
     plan['p_opcode'] = rng.choice([0.005, 0.02, 0.1])
